@@ -47,6 +47,14 @@ def main():
         "notes": "Every check runs Griffe from /repo/src (PYTHONPATH override, asserted at start). Known findings: known_findings.json. See DESIGN.md.",
         "not_applicable": na,
     }
+    allf, fixed = [], []
+    for fp in sorted((VERIF / "findings").glob("C*.json")):
+        d = json.loads(fp.read_text())
+        allf += d.get("findings", [])
+        fixed += d.get("fixed", [])
+    (VERIF / "known_findings.json").write_text(json.dumps({
+        "comment": "Aggregate of findings/Cxx.json (the per-property files the checks read). Genuine defects of the pinned tree that are recorded rather than repaired, each identified by a classifier predicate and a witness; plus the log of repaired defects. Never written at run time.",
+        "findings": allf, "fixed": fixed}, indent=1) + "\n")
     (VERIF / "MANIFEST.json").write_text(json.dumps(manifest, indent=1) + "\n")
     print(f"{len(checks)} checks, {len(na)} not claimed")
 
